@@ -69,6 +69,12 @@ EXTRA_TYPES = [
     T(I32, (None,)),
 ]
 SEQS = [{"seq": T(F32, (3,))}, {"seq": T(I64, None)}, {"seq": T(BOOL, (2, 2))}]
+SEQ_RANK0 = {"seq": T(F32, ())}  # elements of rank 0: `()` is a known shape, not an unknown one
+ZERO_LEN = [T(F32, (0,)), T(I64, (0, 2)), T(F32, (0, 0))]  # zero-length scan axes
+# how Loop's trip count / condition and If's condition are given: an argument, omitted, a constant
+LOOP_M = ["arg", "none", "const3", "const0"]
+LOOP_COND = [None, "constTrue", "constFalse"]
+IF_COND = ["arg", "constTrue", "constFalse"]
 
 
 class _Types:
@@ -379,6 +385,8 @@ def make_callback(env, op, ctor, case, role, rec, counters):
                 return set(uniq)
             d_ = {v: i for i, v in enumerate(uniq)}
             return d_ if cont == "dict" else d_.keys()
+        if cont in ONE_SHOT_MAKERS:
+            return ONE_SHOT_MAKERS[cont](list(vs))
         if cont == "ndarray":  # a numpy object array of Vars is an iterable of Vars
             arr = env.np.empty(len(vs), dtype=object)
             for i, v in enumerate(vs):
@@ -395,6 +403,57 @@ def make_callback(env, op, ctor, case, role, rec, counters):
         return vs
 
     return fun
+
+
+class _OneShot:
+    """An iterator object (its own iterator): can be walked exactly once."""
+
+    def __init__(self, xs):
+        self._xs, self._i = xs, 0
+
+    def __iter__(self):
+        return self
+
+    def __next__(self):
+        if self._i >= len(self._xs):
+            raise StopIteration
+        self._i += 1
+        return self._xs[self._i - 1]
+
+
+def _seqclass(xs):
+    import collections.abc
+
+    class Seq(collections.abc.Sequence):
+        def __getitem__(self, i):
+            return xs[i]
+
+        def __len__(self):
+            return len(xs)
+
+    return Seq()
+
+
+def _deque(xs):
+    import collections
+
+    return collections.deque(xs)
+
+
+# further iterables of Vars: one-shot iterators and non-list sequences (all must count their elements)
+ONE_SHOT_MAKERS = {
+    "iter": lambda xs: iter(xs),
+    "chain": lambda xs: itertools.chain(xs[:1], xs[1:]),
+    "oneshot": lambda xs: _OneShot(xs),
+    "reversed": lambda xs: reversed(xs[::-1]),
+    "zipstar": lambda xs: (t[0] for t in zip(xs, xs)),
+    "deque": _deque,
+    "dictvalues": lambda xs: {i: v for i, v in enumerate(xs)}.values(),
+    "seqclass": _seqclass,
+}
+CONTAINERS_MAIN = ["list", "list", "tuple", "gen", "map", "dictkeys", "iter", "oneshot", "chain"]
+CONTAINERS_ALL = ["list", "tuple", "gen", "map", "dictkeys"] + sorted(ONE_SHOT_MAKERS)
+ONE_SHOT = {"gen", "map", "iter", "chain", "oneshot", "reversed", "zipstar"}
 
 
 def concrete(d):
@@ -471,12 +530,27 @@ def run_real(env: Env, case, steps=()):
     f = getattr(mod, ctor)
     env.spy = []
     outer = {}
+    consts = {}  # operands that are constants (not model inputs)
     if ctor == "if_":
-        outer["cond"] = env.spox.argument(env.ts.Tensor(np.bool_, ()))
+        ic = case.get("if_cond", "arg")
+        if ic == "arg":
+            outer["cond"] = env.spox.argument(env.ts.Tensor(np.bool_, ()))
+        else:  # a constant condition: one branch can never execute; both are still traced exactly once
+            consts["cond"] = op.const(np.array(ic == "constTrue"))
     elif ctor == "loop":
-        outer["M"] = env.spox.argument(env.ts.Tensor(np.int64, ()))
-        if case.get("cond") is not None:
-            outer["cond"] = env.operand(case["cond"])
+        mm = case.get("M", "arg")
+        if mm == "arg":
+            outer["M"] = env.spox.argument(env.ts.Tensor(np.int64, ()))
+        elif mm != "none":  # constant trip count (3, or 0: the body never executes)
+            consts["M"] = op.const(np.array(3 if mm == "const3" else 0, np.int64))
+        cc = case.get("cond")
+        if isinstance(cc, str):
+            consts["cond"] = op.const(np.array([cc == "constTrue"]))
+        elif cc is not None:
+            outer["cond"] = env.operand(cc)
+    if case.get("opcont") == "tuple":  # the operand lists as tuples (the parameters are `Sequence[Var]`)
+        operands = {k: tuple(v) for k, v in operands.items()}
+    given = dict(outer, **consts)
     env.cur_operands = list(operands.get("v_initial", [])) or list(operands.get("initial_state_and_scan_inputs", []))
     env.cur_operands = [v if v.type is not None else None for v in env.cur_operands]
     env.cur_shape_arg = None
@@ -494,9 +568,9 @@ def run_real(env: Env, case, steps=()):
             with warnings.catch_warnings(), amb:
                 warnings.simplefilter("ignore")
                 if ctor == "if_":
-                    outs = f(outer["cond"], then_branch=cbs["then_branch"], else_branch=cbs["else_branch"])
+                    outs = f(given["cond"], then_branch=cbs["then_branch"], else_branch=cbs["else_branch"])
                 elif ctor == "loop":
-                    outs = f(outer["M"], outer.get("cond"), v_initial=operands["v_initial"], body=cbs["body"])
+                    outs = f(given.get("M"), given.get("cond"), v_initial=operands["v_initial"], body=cbs["body"])
                 elif ctor == "scan":
                     outs = f(
                         operands["initial_state_and_scan_inputs"], body=cbs["body"],
@@ -777,7 +851,7 @@ def judge(case, obs):
         want_n = case["cbs"][src]["n"] - (1 if ctor == "loop" else 0)
         got_n = [ov for cls, ov in obs["spy"] if NODE_CLASSES.get(cls) == ctor]
         cont = case["cbs"][src].get("container", "list")
-        tag = ":one-shot-iterable" if cont in ("gen", "map") else ""
+        tag = ":one-shot-iterable" if cont in ONE_SHOT else ""
         if got_n and isinstance(got_n[-1], int) and got_n[-1] != want_n:
             bad.append((f"{ctor}:out-count{tag}", f"callback returned {case['cbs'][src]['n']} Vars, node created with out_variadic={got_n[-1]} (expected {want_n})"))
         elif res[0] == "ok" and res[1] != want_n:
@@ -902,9 +976,18 @@ def finish_case(case, rng, container=None):
         case["scan_attrs"] = attrs
     if "ambient" not in case:
         case["ambient"] = rng.choice(AMBIENTS[1:]) if rng.random() < 0.35 else None
+    # trip count / condition: an argument, omitted, or a constant (incl. bodies that can never execute)
+    if ctor == "loop" and "M" not in case and rng.random() < 0.3:
+        case["M"] = rng.choice(LOOP_M[1:])
+    if ctor == "loop" and "cond" not in case and rng.random() < 0.2:
+        case["cond"] = rng.choice(LOOP_COND[1:])
+    if ctor == "if_" and "if_cond" not in case and rng.random() < 0.4:
+        case["if_cond"] = rng.choice(IF_COND[1:])
+    if ctor != "if_" and "opcont" not in case and rng.random() < 0.2:
+        case["opcont"] = "tuple"
     if ctor != "if_" and "rel" not in case:
         case["rel"] = rng.choice(RELATIONS) if rng.random() < 0.6 else "same"
-    cont = container or rng.choice(["list", "list", "tuple", "gen", "map", "dictkeys"])
+    cont = container or rng.choice(CONTAINERS_MAIN)
     if ctor == "if_":
         n = case.get("n_if", 1)
         case["cbs"] = {"else_branch": good_cb(n, cont, n), "then_branch": good_cb(n, cont, n)}
@@ -1027,13 +1110,56 @@ def gen_cases(ck, info):
     # ---- If
     for mod in defs.get("if_", []):
         for n in range(0, 4):
-            for cont in ["list", "tuple", "gen", "map", "dictkeys"]:
+            for cont in CONTAINERS_ALL:
                 cases.append(finish_case({"mod": mod, "ctor": "if_", "n_if": n}, rng, cont))
+    # ---- every shipped module (also the ones that only re-export a constructor): short operand lists,
+    #      trip count / condition given as argument / omitted / constant, zero-length scan axes, rank-0 elements
+    allmods = {}
+    for m_, c_, _d in info["resolves"]:
+        allmods.setdefault(c_, [])
+        if m_ not in allmods[c_]:
+            allmods[c_].append(m_)
+    for mod in allmods.get("loop", []):
+        light = mod not in defs.get("loop", [])
+        if light:
+            for car in lists_upto(POOL, 1):
+                cases.append(finish_case({"mod": mod, "ctor": "loop", "lists": {"v_initial": car}}, rng))
+            for _ in range(8):
+                cases.append(finish_case({"mod": mod, "ctor": "loop", "lists": {"v_initial": rand_list(pool_u, rng.randrange(2, 4))}}, rng))
+        for mm in LOOP_M:
+            for cc in LOOP_COND + [T(BOOL, (1,))]:
+                car = rand_list(POOL, rng.randrange(0, 3))
+                cases.append(finish_case({"mod": mod, "ctor": "loop", "lists": {"v_initial": car}, "M": mm, "cond": cc}, rng))
+    for mod in allmods.get("scan", []):
+        light = mod not in defs.get("scan", [])
+        lists_ = [[z] for z in ZERO_LEN] + [[T(F32, (3,)), z] for z in ZERO_LEN] + [[ZERO_LEN[0], ZERO_LEN[1]], [ZERO_LEN[2], T(I64, ()), ZERO_LEN[0]]]
+        if light:
+            lists_ += list(lists_upto(TENSORS, 1)) + [rand_list(TENSORS, rng.randrange(2, 4)) for _ in range(6)]
+        for ops in lists_:
+            for m in range(0, len(ops) + 1):
+                cases.append(finish_case({"mod": mod, "ctor": "scan", "lists": {"initial_state_and_scan_inputs": ops},
+                                          "ints": {"num_scan_inputs": m}, "axes": None}, rng))
+                if m >= 1 and all(d["s"] is not None and len(d["s"]) >= 1 for d in ops[len(ops) - m:]):
+                    cases.append(finish_case({"mod": mod, "ctor": "scan", "lists": {"initial_state_and_scan_inputs": ops},
+                                              "ints": {"num_scan_inputs": m}, "axes": [0] * m}, rng))
+    for mod in allmods.get("sequence_map", []):
+        light = mod not in defs.get("sequence_map", [])
+        ins_ = [SEQ_RANK0] + (SEQS if light else [])
+        for s_ in ins_:
+            for ex in list(lists_upto(TENSORS + SEQS + [SEQ_RANK0], 1)) + [rand_list(TENSORS + SEQS + [SEQ_RANK0], rng.randrange(2, 4)) for _ in range(8)]:
+                cases.append(finish_case({"mod": mod, "ctor": "sequence_map", "singles": {"input_sequence": s_},
+                                          "lists": {"additional_inputs": ex}}, rng))
+    for mod in allmods.get("if_", []):
+        light = mod not in defs.get("if_", [])
+        for ic in IF_COND:
+            for n in range(0, 3):
+                if light or ic != "arg":
+                    cases.append(finish_case({"mod": mod, "ctor": "if_", "n_if": n, "if_cond": ic}, rng))
     # ---- every container kind at least once per constructor
     base = [c for c in cases if c["ctor"] != "if_" and prescription(c) is not None][:]
     for mod_ctor in {(c["mod"], c["ctor"]) for c in base}:
         sub = [c for c in base if (c["mod"], c["ctor"]) == mod_ctor and natural_count(c["ctor"], c) >= 2][:40]
-        for cont in ["list", "tuple", "gen", "map", "dictkeys"]:
+        for cont in CONTAINERS_ALL:
             if sub:
                 c = dict(rng.choice(sub))
                 c["cbs"] = {"body": dict(c["cbs"]["body"], container=cont)}
@@ -1042,20 +1168,20 @@ def gen_cases(ck, info):
     dts = [F32, I64, I32, F64, BOOL]
     many_tensors = [T(dts[i % 5], (i + 1,) if i % 3 else (i + 1, 2)) for i in range(14)]
     many_mixed = [({"seq": t} if i % 4 == 1 else ({"opt": t} if i % 4 == 3 else t)) for i, t in enumerate(many_tensors)]
-    for mod in defs.get("loop", []):
+    for mod in allmods.get("loop", []):
         for n_ in ck.pick([9, 11, 13], [9, 10, 11, 12, 13, 14]):
             for pool_ in (many_tensors, many_mixed):
                 car = list(pool_[:n_])
                 rng.shuffle(car)
                 cases.append(finish_case({"mod": mod, "ctor": "loop", "lists": {"v_initial": car}, "k_extra": 0}, rng))
-    for mod in defs.get("scan", []):
+    for mod in allmods.get("scan", []):
         for n_ in ck.pick([11, 13], [10, 11, 12, 13, 14]):
             ops = list(many_tensors[:n_])
             rng.shuffle(ops)
             for m_ in sorted({0, 1, n_ // 2, n_ - 1, n_}):
                 cases.append(finish_case({"mod": mod, "ctor": "scan", "lists": {"initial_state_and_scan_inputs": ops},
                                           "ints": {"num_scan_inputs": m_}, "axes": None, "k_extra": 1}, rng))
-    for mod in defs.get("sequence_map", []):
+    for mod in allmods.get("sequence_map", []):
         for n_ in ck.pick([10, 12], [9, 10, 11, 12, 13]):
             ex = [({"seq": t} if i % 2 else t) for i, t in enumerate(many_tensors[:n_])]
             rng.shuffle(ex)
@@ -1430,7 +1556,8 @@ def _run(ck: core.Check, env: Env, info):
             continue
         nops = sum(len(v) for v in case.get("lists", {}).values())
         key = (case["mod"], case["ctor"], repr(case.get("lists")), repr(case.get("singles")), repr(case.get("ints")),
-               repr(case.get("axes")), repr(case.get("scan_attrs")), case.get("rel"), case.get("ambient"), repr(sorted((r, c["beh"], c.get("n")) for r, c in case["cbs"].items())))
+               repr(case.get("axes")), repr(case.get("scan_attrs")), case.get("rel"), case.get("ambient"),
+               case.get("M"), repr(case.get("cond")), case.get("if_cond"), case.get("opcont"), repr(sorted((r, c["beh"], c.get("n")) for r, c in case["cbs"].items())))
         ck.count(key if (nops >= 1 or not all_good(case)) else None)
         stats["ctor"][case["ctor"]] = stats["ctor"].get(case["ctor"], 0) + 1
         stats["stage"][obs["stage"]] = stats["stage"].get(obs["stage"], 0) + 1
